@@ -118,6 +118,7 @@ type loopInfo struct {
 }
 
 type FnV struct {
+	atCallHit map[*Clause]bool // at-call clauses that met a call site
 	g     *Gen
 	c     *Ctx
 	fn    *ssa.Function
@@ -692,6 +693,7 @@ func (fv *FnV) run() (err error) {
 	}
 	fv.lockBalanceAndOwnership()
 	fv.flushPending()
+	fv.atCallBinding()
 	return nil
 }
 
@@ -1252,4 +1254,26 @@ func (fv *FnV) safety(st *State, what string, cond string, pos token.Pos) {
 	o.Contained = fv.hasRecover
 	// past this point the condition holds (otherwise control left through a panic)
 	fv.assume(st, cond)
+}
+
+// atCallBinding: an at-call assertion that met no call site says nothing; that is reported, not passed over.
+func (fv *FnV) atCallBinding() {
+	if fv.k == nil {
+		return
+	}
+	var keys []string
+	for k := range fv.k.CallAsserts {
+		keys = append(keys, k)
+	}
+	sort.Strings(keys)
+	for _, key := range keys {
+		for _, cl := range fv.k.CallAsserts[key] {
+			if fv.atCallHit[cl] {
+				continue
+			}
+			o := fv.emit(nil, "B", "at-call."+cl.Label, cl.Props, "false", "the assertion `at-call "+key+" assert "+cl.Label+"` applies to at least one call site of the current body", fv.fn.Pos())
+			o.Static = "fails: no call site of " + key + " in the function body"
+			o.Script = ""
+		}
+	}
 }
